@@ -123,3 +123,38 @@ Definition has_description (src : source) : bool :=
   | SLocal _ (LJson _) | SRemote _ (RJson _) => true
   | _ => false
   end.
+
+(* ---------------------------------------------------------------- (a') links, path by path *)
+
+(* the object named [n] in list attribute [slot] of an imported object *)
+Definition slot_child (x : xval) (slot n : str) : option xval :=
+  match assoc_get slot (x_attrs x) with
+  | Some (XL l) =>
+    find (fun o => match x_name o with JStr y => str_eqb (lower y) (lower n) | _ => false end) l
+  | _ => None
+  end.
+
+(* The imported object [x] stands for entity e of A (reached along some path: module, then list
+   attribute and name at every step).  It must carry base / (A's own URL of e) - of THIS entity, not
+   of another one that happens to have the same name elsewhere - and so must, recursively, every
+   object that B finds under x at the path of one of e's children. *)
+Fixpoint path_ok (idf : nat -> str) (b : base) (pk : option kind) (purl : option str) (e : ent) (x : xval)
+         {struct e} : bool :=
+  match e with
+  | Ent id k name p kids =>
+    let url := own_url pk purl k (idf id) in
+    match url, x_url x with
+    | Some u, JStr xu => str_eqb xu (spec_join b u)
+    | Some _, _ => false
+    | None, _ => true
+    end
+    && (fix go (l : list ent) : bool :=
+          match l with
+          | [] => true
+          | c :: r =>
+            match slot_child x (slot_of (e_kind c)) (e_name c) with
+            | Some xc => path_ok idf b (Some k) url c xc
+            | None => true
+            end && go r
+          end) kids
+  end.
